@@ -6,7 +6,7 @@ FORMS = ["Co", "Co30Fe70", "SiO2", "Au", "NaCl", "Gd2O3", "Eu", "Dy", "Co[59]", 
          "Na", "Mn", "V", "Ir", "Sc2O3", "KBr", "CsI", "La", "Hf", "Re", "Lu2O3"]
 TWO_STEP = ["Lu2O3", "Ta", "Tb", "Tm", "Co", "Sc2O3", "Ir", "Lu", "W", "Re"]
 RESTLISTS = [[0], [0, 1, 24, 360], [1], [24, 1], [5, 0.5, 100], [2, 0.5], [360, 0], [0.25]]
-FRACS = [1e-9, 1e-6, 1e-3, 0.01, 0.1, 0.5, 0.9, 0.999, 1.0, 1.001, 1.5, 2.0, 10.0]
+FRACS = [1e-9, 1e-6, 1e-3, 0.01, 0.1, 0.5, 0.9, 0.999, 0.9995, 0.99999, 1.0, 1.00001, 1.001, 1.5, 2.0, 10.0]
 
 
 def tasks(ctx, quick):
